@@ -33,6 +33,10 @@ type parser struct {
 	lex  lexer.Lexer
 	curr lexer.Token
 	next lexer.Token
+
+	// afterDot is set while the token after a "." is parsed: only an
+	// identifier, not a let expression, can stand there
+	afterDot bool
 }
 
 func (p *parser) advance() error {
@@ -178,6 +182,7 @@ func (p *parser) infix(node Node, first, prec int) (Node, error) {
 					return nil, err
 				}
 
+				p.afterDot = true
 				right, err := p.expression(newPrec)
 				if err != nil {
 					return nil, err
@@ -1645,8 +1650,11 @@ func (p *parser) primaryExpression() (Node, error) {
 	// let and in are keywords only where a let expression needs them: let
 	// in front of a variable binding, in after the bindings (consumed by
 	// let()). Anywhere else they are ordinary identifiers.
+	afterDot := p.afterDot
+	p.afterDot = false
+
 	typ := p.curr.Type
-	if typ == lexer.InToken || typ == lexer.LetToken && p.next.Type != lexer.VariableToken {
+	if typ == lexer.InToken || typ == lexer.LetToken && (afterDot || p.next.Type != lexer.VariableToken) {
 		typ = lexer.UnquotedIdentifierToken
 	}
 
